@@ -35,6 +35,9 @@ structure UData where
   lower : Char → Text
   /-- `Layout::width` of a string (grapheme-cluster mode fixed by the caller) -/
   width : Text → Nat
+  /-- `cwidh(ch)`: the width of one `char` (0 for control characters); used by the fast path of
+      `State::edit_insert` and by `calculate_position` -/
+  cwidth : Char → Nat := fun _ => 1
 
 structure LB where
   buf : Text
